@@ -5,7 +5,7 @@ Unlike the token-stream obligations (O6.3, O10.8) nothing about the byte layout 
 below, prefix compression compares real bytes.  This is the part of C13 that CBMC could not reach (T6/T10: OOM on the builder with
 restart interval 16)."""
 import itertools, time
-from z3 import BitVec, BitVecVal, Bool, BoolVal, And, Or, Not, ULT, ULE, UGT, UGE, Extract, ZeroExt, Concat, If, simplify, is_bv, is_bv_value
+from z3 import BitVec, BitVecVal, Bool, BoolVal, And, Or, Not, ULT, ULE, UGT, UGE, Extract, ZeroExt, Concat, If, simplify, is_bv, is_bv_value, is_false
 from ..exec import Exec, Enum, Ref, Opaque, Inconclusive, Delegate, bv
 from ..ob import Result, mval
 from .. import lib, lib2
@@ -277,3 +277,141 @@ def o13_6_confirm(v, out):
     sequences, shared prefixes reaching into the sequence bytes, 0x00 / 0xff bytes) and read back with the real BlockReader and its iterator."""
     if out.get('_rc') != 0: return (True, 'native run panicked / failed: %s' % out.get('_stderr', '')[-300:]) if 'panicked' in out.get('_stderr', '') else (False, 'native run failed: %s' % out.get('_stderr', '')[-300:])
     return (out.get('mismatches', '0') != '0', 'native: %s of %s round trips differ (first: %s)' % (out.get('mismatches'), out.get('cases'), out.get('first_mismatch')))
+
+
+# ======================================================================================== readers over byte lists (`&[u8]` as std::io::Read)
+def reader_summaries(S, V):
+    """A `&[u8]` reader is a byte list held in a local; reading consumes a prefix (the local is overwritten with the rest)."""
+    P = {}
+    eof = lambda: Enum('Err', ({'kind': 'UnexpectedEof', '__ty': 'io::Error'},))
+    last_raw = ['']
+    def on_call(se, env, raw, vals): last_raw[0] = raw
+    S['$on_call'] = on_call
+    def read_fixed(se, env, pc, r):
+        l = V(se, env, r); w = 4 if '::<u32>' in last_raw[0] else 8
+        if len(l) < w: return lib.one(env, eof())
+        se.store(env, r, l[w:]); return lib.one(env, Enum('Ok', (simplify(Concat(*reversed(l[:w]))),)))
+    P[r'<&\[u8\] as FixedIntReader>::read_fixedint'] = read_fixed; P[r'<R as FixedIntReader>::read_fixedint'] = read_fixed
+    def read_var(se, env, pc, r):
+        l = V(se, env, r); width = 32 if '::<u32>' in last_raw[0] else 64
+        # one alternative per number of bytes the varint may occupy; continuation bits that are not fixed on the path fork it
+        outs = []; conds = []; val = BitVecVal(0, width); shift = 0; ended = False
+        for i, b in enumerate(l[:10]):
+            top = simplify(Extract(7, 7, b))
+            if shift < width: val = val | (ZeroExt(width - 7, Extract(6, 0, b)) << shift)
+            shift += 7
+            fixed = top.as_long() if is_bv_value(top) else None
+            if fixed != 1:
+                c = conds + ([top == 0] if fixed is None else [])
+                outs.append((And(*c) if c else None, Enum('Ok', (simplify(val),)), env.get('$state'), [(r, l[i + 1:])]))
+            if fixed == 0: ended = True; break
+            if fixed is None: conds = conds + [top == 1]
+        if not ended: outs.append((And(*conds) if conds else None, eof(), env.get('$state')))
+        return outs
+    P[r'<&\[u8\] as VarIntReader>::read_varint'] = read_var; P[r'<R as VarIntReader>::read_varint'] = read_var
+    def read_exact(se, env, pc, r, dst):
+        l = V(se, env, r); n = len(V(se, env, dst))
+        if len(l) < n: return lib.one(env, eof())
+        se.store(env, dst, l[:n]); se.store(env, r, l[n:]); return lib.one(env, Enum('Ok', ((),)))
+    P[r'<&\[u8\] as (?:std::io::)?Read>::read_exact'] = read_exact; P[r'<R as (?:std::io::)?Read>::read_exact'] = read_exact
+    def from_elem(se, env, pc, z, n):
+        c = se.concretize(n)
+        K = 40           # no buffer of these obligations is longer: a vector of K + 1 bytes makes the following read_exact fail
+        if c is not None: return lib.one(env, [z] * min(c, K + 1))
+        # a length decoded from symbolic bytes (only on paths of a misbehaving decoder): one alternative per length
+        return [(n == BitVecVal(k, n.size()), [z] * k, env.get('$state')) for k in range(K + 1)] + [(UGT(n, BitVecVal(K, n.size())), [z] * (K + 1), env.get('$state'))]
+    P[r'std::vec::from_elem'] = from_elem
+    def range32(se, env, pc, r):
+        a, b = se.concretize(r[0]), se.concretize(r[1])
+        if a is None or b is None: raise Inconclusive('loop over a symbolic range')
+        if b - a > 16: raise Inconclusive('range of %d steps' % (b - a))
+        return lib.one(env, {'it': [BitVecVal(i, 32) for i in range(a, b)]})
+    P[r'<std::ops::Range<u32> as IntoIterator>::into_iter'] = range32
+    P[r'<std::ops::Range<u32> as Iterator>::next'] = lib.it_next
+    P[r'<Vec<u8> as DerefMut>::deref_mut'] = lib.ident
+    P[r'Vec::with_capacity'] = lambda se, env, pc, n: lib.one(env, [])
+    S['$patterns'] = dict(list(P.items()) + [(k, v) for k, v in S['$patterns'].items() if k not in P])
+    return S
+
+
+def o6_5_batch_bytes(mir, tier):
+    """Batch encoder (`From<&Batch> for Vec<u8>`, `From<&BatchElement>`) and decoder (`Batch::try_from`, `BatchElement::read_element`,
+    `read_length_prefixed_slice`) executed from MIR over lists of symbolic bytes: batches of 0..2 (3) operations, every put / delete
+    pattern, keys and values of 0..2 symbolic bytes, free starting sequence.  Reference: the decoded batch equals the encoded one (sequence,
+    kinds, key bytes, value bytes, order); every strict prefix of the encoding is rejected (a cut record never decodes as a shorter
+    batch); the layout is fixed64 sequence, varint count, then per operation: kind byte, varint key length, key, [varint value length, value]."""
+    enc = [f for f in mir.fns.values() if f.name == 'from' and f.path.startswith('batch::') and f.trait and f.trait.startswith('From') and f.self_ty and 'Vec' in f.self_ty]
+    encb = [f for f in enc if 'BatchElement' not in (f.trait_full or '')]; ence = [f for f in enc if 'BatchElement' in (f.trait_full or '')]
+    dec = [f for f in mir.fns.values() if f.name == 'try_from' and f.path.startswith('batch::') and f.self_ty == 'Batch']
+    if not (len(encb) == 1 and len(ence) == 1 and len(dec) == 1): raise Inconclusive('batch codec functions not found uniquely (%d %d %d)' % (len(encb), len(ence), len(dec)))
+    encb, ence, dec = encb[0], ence[0], dec[0]
+    NMAX = 2 if tier == 'quick' else 3
+    lens = [(0, 0), (1, 2), (2, 1)] if tier == 'quick' else [(a, b) for a in range(3) for b in range(3)]
+    res = Result('O6.5 batch codec over symbolic bytes', [encb.path, ence.path, dec.path, 'BatchElement::read_element, read_length_prefixed_slice, Batch::new / add_operation / set_starting_seq_number, BatchElement::new (inlined)'],
+                 'batches of 0..%d operations, every put / delete pattern, (key, value) lengths from %s, all bytes and the starting sequence symbolic; every strict prefix of every encoding; lengths >= 128 (multi-byte varints) outside' % (NMAX, lens))
+    t0 = time.time()
+    bf = mir.struct_fields('Batch'); ef = mir.struct_fields('BatchElement')
+    for n in range(NMAX + 1):
+        for kinds in itertools.product((True, False), repeat=n):
+            for li in range(len(lens)):
+                S, V, F = byte_summaries(mir); S = reader_summaries(S, V); P = S['$patterns']
+                def opd(se, env, v):
+                    while isinstance(v, Ref): v = se.deref(env, v)
+                    d = v if is_bv(v) else se.discr_of(v)
+                    return ZeroExt(64 - d.size(), d) if d.size() < 64 else d
+                P[r'<Operation as PartialEq>::eq'] = lambda se, env, pc, a, b: lib.one(env, opd(se, env, a) == opd(se, env, b))
+                P[r'<Vec<u8> as From<&BatchElement>>::from'] = lambda se, env, pc, e: Delegate(ence, [e])
+                P[r'<&\[u8\] as ReadHelpers>::read_length_prefixed_slice'] = lambda se, env, pc, r, f=[x for x in mir.fns.values() if x.path.endswith('::read_length_prefixed_slice') and 'utils::io' in x.path][0]: Delegate(f, [r])
+                s0 = BitVec('starting_sequence', 64)
+                keys = [[BitVec('key%d_%d' % (i, j), 8) for j in range(lens[(li + i) % len(lens)][0])] for i in range(n)]
+                vals = [[BitVec('val%d_%d' % (i, j), 8) for j in range(lens[(li + i) % len(lens)][1])] for i in range(n)]
+                ops = [mir.mk_struct('BatchElement', operation=bv(1 if kinds[i] else 0), user_key=list(keys[i]), value=Enum('Some', (list(vals[i]),)) if kinds[i] else Enum('None'), size=bv(0)) for i in range(n)]
+                batch = mir.mk_struct('Batch', starting_seq_number=Enum('Some', (s0,)), operations=list(ops))
+                ex = Exec(mir, S, loop_bound=NMAX + 6, opaque_calls_ok=False)
+                case = '%d ops %s lengths %s' % (n, ''.join('P' if x else 'D' for x in kinds), [(len(k), len(v)) for k, v in zip(keys, vals)])
+                def encoded(buf, env, pc, ex=ex, n=n, kinds=kinds, s0=s0, keys=keys, vals=vals, case=case):
+                    raw = V(ex, env, buf)
+                    want = [Extract(8 * i + 7, 8 * i, s0) for i in range(8)] + [b8(n)]
+                    for i in range(n):
+                        want += [b8(1 if kinds[i] else 0), b8(len(keys[i]))] + keys[i] + (([b8(len(vals[i]))] + vals[i]) if kinds[i] else [])
+                    posts = [('the encoding of a batch is not: fixed64 sequence, varint count, then per operation kind byte, length-prefixed key, [length-prefixed value]', lex_eq(raw, want))]
+                    for label, post, m in ex.check_posts(posts, pc):
+                        res.violations.append({'label': label, 'case': case, 'replay': ['batch_codec']})
+                    def decoded(ret, env2, pc2):
+                        ok = isinstance(ret, Enum) and ret.tag == 'Ok'
+                        posts = [('an encoded batch does not decode', BoolVal(ok))]
+                        if ok:
+                            b = ret.fields[0]; sq = b[bf.index('starting_seq_number')]; got = b[bf.index('operations')]
+                            posts.append(('the starting sequence of a batch does not survive encode + decode', sq.fields[0] == s0 if isinstance(sq, Enum) and sq.tag == 'Some' and is_bv(sq.fields[0]) else BoolVal(False)))
+                            posts.append(('a decoded batch does not hold as many operations as were encoded', BoolVal(isinstance(got, list) and len(got) == n)))
+                            for i, g in enumerate(got[:n] if isinstance(got, list) else []):
+                                k = g[ef.index('user_key')]; v = g[ef.index('value')]; o = opd(ex, env2, g[ef.index('operation')])
+                                sk = lex_eq(k, keys[i]) if isinstance(k, list) else BoolVal(False)
+                                if kinds[i]: sv = lex_eq(v.fields[0], vals[i]) if isinstance(v, Enum) and v.tag == 'Some' and isinstance(v.fields[0], list) else BoolVal(False)
+                                else: sv = BoolVal(isinstance(v, Enum) and v.tag == 'None')
+                                posts.append(('operation %d of a batch does not survive encode + decode (kind, key bytes, value bytes)' % i, And(o == bv(1 if kinds[i] else 0), sk, sv)))
+                        res.cases[case] = res.cases.get(case, 0) + 1
+                        for label, post, m in ex.check_posts(posts, pc2):
+                            res.violations.append({'label': label, 'case': case, 'model': {str(d): str(m[d]) for d in m.decls()}, 'replay': ['batch_codec']})
+                    ex.run_fn(dec, [list(raw)], dict(env), pc, decoded)
+                    for cut in range(len(raw)):
+                        def cut_decoded(ret, env3, pc3, cut=cut):
+                            posts = [('a strict prefix of an encoded batch decodes (a record cut short is taken for a complete, shorter batch)', BoolVal(isinstance(ret, Enum) and ret.tag == 'Err'))]
+                            for label, post, m in ex.check_posts(posts, pc3):
+                                res.violations.append({'label': label, 'case': case, 'cut': cut, 'replay': ['truncated_batch']})
+                        ex.run_fn(dec, [list(raw[:cut])], dict(env), pc, cut_decoded)
+                ex.top(encb, [Ref('$b')], {'$state': {}, '$b': batch}, [], encoded)
+                res.absorb(ex)
+                _panics(res, ex, [], 'key_codec')
+                if n == 0: break          # no lengths to vary
+    res.wall_s = time.time() - t0
+    if res.violations: res.status = 'violation'
+    return res
+
+
+def o6_5_confirm(v, out):
+    """Native: `batch_codec` (495 real batches with key / value lengths 0, 1, 5, 127, 128, 300, 20000 through the real codec) or
+    `truncated_batch` (every proper prefix of an encoded batch must be rejected)."""
+    if out.get('_rc') != 0: return (False, 'native run failed: %s' % out.get('_stderr', '')[-300:])
+    if v['replay'][0] == 'truncated_batch': return (out.get('accepted_prefixes', '0') != '0', 'native: %s of %s proper prefixes of an encoded batch decode' % (out.get('accepted_prefixes'), out.get('prefixes')))
+    return (out.get('mismatches', '0') != '0', 'native: %s of %s encoded batches decode to something else (first: %s)' % (out.get('mismatches'), out.get('batches'), out.get('first_mismatch')))
